@@ -533,6 +533,10 @@ class Harness(object):
         b.get_account_cash_balance(cur)
         b.get_account_total_market_value()
         b.get_account_total_equity()
+        listed = b.list_all_portfolios()
+        if sorted(str(p_.portfolio_id) for p_ in listed) != sorted(self.pids):
+            raise Violation('list_all_portfolios() names %s, the account has %s' % (
+                [p_.portfolio_id for p_ in listed], self.pids))
         for pid in self.pids:
             port = b.portfolios[pid]
             # what the broker reports about a portfolio is what the portfolio reports itself, right now
